@@ -30,6 +30,9 @@ type AV = map[string]interface{}
 type Graph struct {
 	Nodes []AV `json:"nodes"`
 	Root  AV   `json:"root"`
+	// Extra counts repeated occurrences of containers that are not reached through a Go pointer (a map or
+	// slice value stored twice): the encoder may legitimately write those again.
+	Extra int `json:"extra"`
 }
 
 type absKey struct {
@@ -42,6 +45,7 @@ type absKey struct {
 type absCtx struct {
 	nodes []AV
 	seen  map[absKey]int
+	extra int
 }
 
 var (
@@ -62,7 +66,7 @@ func Abs(v interface{}) Graph {
 	if c.nodes == nil {
 		c.nodes = []AV{}
 	}
-	return Graph{c.nodes, root}
+	return Graph{c.nodes, root, c.extra}
 }
 
 // AbsValue projects a reflect.Value.
@@ -72,7 +76,7 @@ func AbsValue(v reflect.Value) Graph {
 	if c.nodes == nil {
 		c.nodes = []AV{}
 	}
-	return Graph{c.nodes, root}
+	return Graph{c.nodes, root, c.extra}
 }
 
 func realAV(f float64, w int) AV {
@@ -129,6 +133,9 @@ func FieldName(f reflect.StructField) (string, bool) {
 func (c *absCtx) node(key absKey, build func(id int) AV) AV {
 	if key.ptr != 0 {
 		if id, ok := c.seen[key]; ok {
+			if key.kind != reflect.Ptr {
+				c.extra++
+			}
 			return AV{"k": "node", "id": id}
 		}
 	}
@@ -201,9 +208,15 @@ func (c *absCtx) abs(v reflect.Value) AV {
 		return realAV(v.Float(), 64)
 	case reflect.Complex64:
 		x := v.Complex()
+		if imag(x) != 0 {
+			c.extra++ // written as a two-element list
+		}
 		return AV{"k": "complex", "w": 32, "re": realAV(real(x), 32), "im": realAV(imag(x), 32)}
 	case reflect.Complex128:
 		x := v.Complex()
+		if imag(x) != 0 {
+			c.extra++
+		}
 		return AV{"k": "complex", "w": 64, "re": realAV(real(x), 64), "im": realAV(imag(x), 64)}
 	case reflect.String:
 		return strAV(v.String())
